@@ -111,6 +111,8 @@ RESCALE_ROUNDS_QUICK = 2   # round r multiplies column l of user k by FACTORS[(l
 
 # scale families (SINR is a ratio: every relation is exactly scale covariant, every tolerance is
 # relative to the operands - there is no absolute floor anywhere in this check)
+PE_BOUNDARY = (0, 0.0, 1e-30, 0.5, 1e6)
+NOISE_BOUNDARY = (None, 0, 0.1, 1e-13)
 SCALES = [
     ("U*1e-10", dict(U=1e-10)), ("U*1e8", dict(U=1e8)),
     ("F*1e-10,P*1e-20", dict(F=1e-10, P=1e-20)), ("F*1e8,P*1e16", dict(F=1e8, P=1e16)),
@@ -122,7 +124,9 @@ SCALES = [
     # falsy-but-valid values (unit scale)
     ("PL_zero_cross_link", dict(PL="zero_cross")),      # path loss exactly 0 from Tx 1 to Rx 0
     ("F_zero_column", dict(Fzero=True)),                # a stream with zero power -> SINR 0
-    ("pe_zero", dict(pes=(0, 0.0))),
+    # boundary values of the option pe (0 as int and float, tiny, ordinary, large) x ordinary and
+    # boundary noise variances x every entry point (IC and JP; Q, B_kl, covariances ride along)
+    ("pe_boundary", dict(pes=PE_BOUNDARY, noises=NOISE_BOUNDARY)),
 ]
 SCALE_NOISES = [None, 0, 0.0, 1e-13, 1e-20]
 SCALE_PES = [None, 1e-12]
@@ -217,7 +221,7 @@ def scale_cases(tier):
     for Nr, Nt, Ns in configs:
         for s in (range(3) if thorough else range(1)):
             for name, sc in SCALES:
-                for noise in SCALE_NOISES:
+                for noise in sc.get("noises", SCALE_NOISES):
                     base = dict(Nr=list(Nr), Nt=list(Nt), Ns=list(Ns), pl=1 if "PL" in sc else 0,
                                 noise=noise, s=s, offs=offs, scale=name)
                     for var in ("IC", "JP"):
@@ -765,6 +769,13 @@ def run_chan_case(case, chk, live=None):
         fn = ch.calc_JP_SINR if jp else ch.calc_SINR
         name = "calc_JP_SINR" if jp else "calc_SINR"
 
+        if not live:
+            for acc in ((name, "calc_JP_Q" if jp else "calc_Q") +
+                        (("calc_cov_matrix_extint_plus_noise",
+                          "calc_cov_matrix_extint_without_noise") if ext else ())):
+                chk.outcome("cell", (type(ch).__name__, acc, "pe=%r" % (case["pe"],) if ext else "-",
+                                     "noise_var=%r" % (case["noise"],)))
+
         # 1. library vs first principles (object-array containers)
         got = fn(objarr(Fl), objarr(Ul), *pe_args)
         if not check_shape(chk, view, name, case, got, Ns):
@@ -1033,6 +1044,10 @@ def run_solver_case(case, chk, live=None):
         record_outcomes(chk, case, ref_sinr, parts)
         chk.outcome("cond_WHF_decade", decade(max(conds) / (SOLVE_SAFETY if not (live and live["stale"]) else 1.0)))
 
+        if not live:
+            for acc in ("calc_SINR", "calc_sum_capacity", "calc_SINR_in_dB", "calc_Q"):
+                chk.outcome("cell", ("solver on " + type(ch).__name__, acc, "-",
+                                     "noise_var=%r" % (case["noise"],)))
         got = sol.calc_SINR()
         if not check_shape(chk, view, "calc_SINR", case, got, Ns):
             return
@@ -2379,6 +2394,41 @@ def main(chk: Check):
     chk.require_outcomes("configuration", 100)
     chk.require_outcomes("history_model_state", 200)
     chk.require_outcomes("history_depth", 2)
+    # every (entry point) x (boundary value of pe) x (noise_var kind) cell is populated in every tier
+    cells = chk.outcomes.get("cell", set())
+    missing = []
+    for acc in ("calc_SINR", "calc_JP_SINR", "calc_Q", "calc_JP_Q",
+                "calc_cov_matrix_extint_plus_noise", "calc_cov_matrix_extint_without_noise"):
+        for pe in PE_BOUNDARY + (None,):
+            for noise in NOISE_BOUNDARY:
+                c = ("MultiUserChannelMatrixExtInt", acc, "pe=%r" % (pe,), "noise_var=%r" % (noise,))
+                if c not in cells:
+                    missing.append(c)
+    for acc in ("calc_SINR", "calc_JP_SINR", "calc_Q", "calc_JP_Q"):
+        for noise in NOISE_BOUNDARY:
+            c = ("MultiUserChannelMatrix", acc, "-", "noise_var=%r" % (noise,))
+            if c not in cells:
+                missing.append(c)
+    for host in ("MultiUserChannelMatrix", "MultiUserChannelMatrixExtInt"):
+        for acc in ("calc_SINR", "calc_sum_capacity", "calc_SINR_in_dB", "calc_Q"):
+            for noise in NOISE_BOUNDARY:
+                c = ("solver on " + host, acc, "-", "noise_var=%r" % (noise,))
+                if c not in cells:
+                    missing.append(c)
+    if missing:
+        raise Broken("vacuous: %d (entry point x option value) cells not populated, e.g. %r"
+                     % (len(missing), missing[:3]))
+    chk.extra["axes"] = {
+        "entry points (channel object)": ["calc_SINR", "calc_JP_SINR", "calc_Q", "calc_JP_Q",
+                                          "B_kl helpers", "calc_cov_matrix_extint_plus_noise",
+                                          "calc_cov_matrix_extint_without_noise"],
+        "entry points (solver)": ["calc_SINR", "calc_SINR_in_dB", "calc_sum_capacity", "calc_Q"],
+        "pe": [repr(v) for v in PE_BOUNDARY] + ["omitted (default 1.0)", "4.0", "1e-12"],
+        "noise_var": [repr(v) for v in NOISE_BOUNDARY] + ["2.0", "0.0", "1e-20", "int / np.int64 / "
+                                                          "np.float32 presentations of 2"],
+        "cells": "every entry point x every pe x every noise_var of the boundary lists is required "
+                 "(BROKEN otherwise); %d distinct cells populated" % len(cells),
+    }
     chk.require_outcomes("layout_history_state", 12)
     regimes = chk.outcomes.get("capacity_regime", set())
     for need in (("many_streams", "above_%d_bits" % CAP_BITS),
